@@ -148,7 +148,10 @@ func tcp(ip string, port int) *net.TCPAddr { return &net.TCPAddr{IP: net.ParseIP
 func wrappers() []wrapper {
 	var w []wrapper
 	for _, op := range []string{"dial", "read", "write"} {
-		for mode := 0; mode < 5; mode++ {
+		for mode := 0; mode < 7; mode++ {
+			if mode >= 5 && op != "dial" {
+				continue
+			}
 			op, mode := op, mode
 			w = append(w, wrapper{fmt.Sprintf("OpError(%s,%d)", op, mode), func(tk tokens, in error) (error, []secret) {
 				oe := &net.OpError{Op: op, Net: "tcp", Err: in}
@@ -168,6 +171,14 @@ func wrappers() []wrapper {
 					oe.Net = "unix"
 					oe.Addr = &net.UnixAddr{Name: "/run/" + tk.host3 + "/sock", Net: "unix"}
 					sec = append(sec, secret{tk.host3, "OpError.Addr"})
+				case 5:
+					// what net.Dial(address, network) reports: the "network" is the address
+					oe.Net = tk.host3 + ":443"
+					sec = append(sec, secret{tk.host3, "OpError.Net"})
+				case 6:
+					oe.Net = tk.v4b + ":9001"
+					oe.Addr = tcp(tk.v4, 443)
+					sec = append(sec, secret{tk.v4b, "OpError.Net"}, secret{tk.v4, "OpError.Addr"})
 				}
 				return oe, sec
 			}})
@@ -414,6 +425,20 @@ func realErrors(c *mon.Case, r *mon.Run) {
 	}
 	_, err := net.Dial("tcp7", tk.v4+":1")
 	add("net.Dial unknown network", err, secret{tk.v4, "dial"})
+	// network and address handed over in the wrong order (or a network name
+	// taken from configuration that is really an address): the net package
+	// refuses the "network" up front and reports it in OpError.Net and in an
+	// UnknownNetworkError
+	for _, a := range []string{tk.host + ":443", tk.v4 + ":9001", "[" + tk.v6 + "]:443", tk.host} {
+		_, err := net.Dial(a, "tcp")
+		add("net.Dial(address, network)", err, secret{tk.host, "OpError.Net"}, secret{tk.v4, "OpError.Net"}, secret{tk.v6, "OpError.Net"})
+		_, err = net.Listen(a, "tcp")
+		add("net.Listen(address, network)", err, secret{tk.host, "OpError.Net"}, secret{tk.v4, "OpError.Net"}, secret{tk.v6, "OpError.Net"})
+		_, err = net.ListenPacket(a, "udp")
+		add("net.ListenPacket(address, network)", err, secret{tk.host, "OpError.Net"}, secret{tk.v4, "OpError.Net"}, secret{tk.v6, "OpError.Net"})
+		_, err = net.ResolveTCPAddr(a, "tcp")
+		add("net.ResolveTCPAddr(address, network)", err, secret{tk.host, "UnknownNetworkError"}, secret{tk.v4, "UnknownNetworkError"}, secret{tk.v6, "UnknownNetworkError"})
+	}
 	_, _, err = net.SplitHostPort(tk.host)
 	add("SplitHostPort", err, secret{tk.host, "AddrError.Addr"})
 	_, _, err = net.SplitHostPort("[" + tk.v6 + "]443")
